@@ -520,6 +520,9 @@ def toPES(radial, intensity, energy_cal_factor, per_energy_scaling=True,
 
     """
 
+    # (work on a copy, the Jacobian correction below is done in place)
+    intensity = np.array(intensity, dtype=float)
+
     if Vrep is not None:
         energy_cal_factor *= np.abs(Vrep) / zoom**2
 
